@@ -295,13 +295,17 @@ func repoIsAvailable(repo repository.RepoStorage, events chan BuildEvent) error 
 			return fmt.Errorf("the lock file should be < 10 bytes")
 		}
 
-		pid, err := strconv.Atoi(string(buf))
-		if err != nil {
-			return err
-		}
+		// An empty lock file is what is left by a process that died after creating the file
+		// but before writing its pid in it: nobody holds the lock.
+		if len(buf) > 0 {
+			pid, err := strconv.Atoi(string(buf))
+			if err != nil {
+				return err
+			}
 
-		if process.IsRunning(pid) {
-			return fmt.Errorf("the repository you want to access is already locked by the process pid %d", pid)
+			if process.IsRunning(pid) {
+				return fmt.Errorf("the repository you want to access is already locked by the process pid %d", pid)
+			}
 		}
 
 		// The lock file is just laying there after a crash, clean it
